@@ -41,6 +41,36 @@ def bind_repo():
     return repo
 
 
+class LibraryHang(BaseException):
+    """A call into the library under test did not return within the (real-time) limit."""
+
+
+HANG_LIMIT = float(os.environ.get('VF_HANG_LIMIT', '60'))
+
+
+def bounded(what, fn, *a, **k):
+    """Run fn(*a, **k) on a helper thread; raise LibraryHang(what) when it has not returned after HANG_LIMIT seconds
+    of real time (for the parts that drive the library with real threads: a changed tree must end in a verdict,
+    not in a check that never returns).  The stuck daemon thread is abandoned."""
+    import threading
+    box = []
+
+    def body():
+        try:
+            box.append((True, fn(*a, **k)))
+        except BaseException as e:  # noqa
+            box.append((False, e))
+    t = threading.Thread(target=body, daemon=True, name='vf-bounded')
+    t.start()
+    t.join(HANG_LIMIT)
+    if not box:
+        raise LibraryHang(what)
+    ok, v = box[0]
+    if ok:
+        return v
+    raise v
+
+
 class HarnessError(Exception):
     """The machinery itself misbehaved (never a verdict about the property)."""
 
